@@ -274,7 +274,10 @@ def sig_of_log(logtxt, start):
 def load_trace(path):
     dirs = {}
     for line in open(path):
-        r = json.loads(line)
+        try:
+            r = json.loads(line)
+        except ValueError:
+            continue          # the torn last line of a trace whose writer died
         dirs.setdefault(r["dir"], []).append(r)
     for d in dirs.values():
         d.sort(key=lambda r: r["run"])
@@ -359,6 +362,24 @@ def gen_jobs(seed, ndirs, cycles, engines, known, cover_once=False):
             # a death during the restart itself at a point that is also hit by a running node
             specs.append("S:%s:1" % START_ALSO[(d + seed) % len(START_ALSO)])
         jobs.append(dict(seed=rnd.randrange(1 << 40), engine=engines[d % len(engines)], optfsync=(d % 3 != 2), ops_max=OPS_MAX, specs=specs))
+    return jobs
+
+
+SNAP_WINDOW = ["sn.ckpt.done", "sn.create.after", "ps.snapfile.after"]
+
+
+def gen_consecutive(seed, njobs, engines):
+    """consecutive deaths in the window between 'checkpoint of a snapshot complete' and 'snapshot recorded in the WAL'
+    (KeepBackup = 2): life 0 dies there at its 2nd snapshot (one snapshot recorded, one checkpoint orphaned), life 1
+    restores, replays, takes a snapshot at once and dies there again (armed from its start), the following lives must
+    come back on the one recorded snapshot while orphaned checkpoints and snap files pile up around it"""
+    rnd = __import__("random").Random(seed + 71)
+    jobs = []
+    for d in range(njobs):
+        p1 = SNAP_WINDOW[(d + seed) % len(SNAP_WINDOW)]
+        p2 = SNAP_WINDOW[(d // len(SNAP_WINDOW) + seed) % len(SNAP_WINDOW)] if njobs > len(SNAP_WINDOW) else p1
+        specs = ["P:%s:2:0" % p1, "S:%s:1" % p2, "S:%s:1" % rnd.choice(SNAP_WINDOW), "X:%d:0" % rnd.randint(1, 12), "X:%d:0" % rnd.randint(20, 40)]
+        jobs.append(dict(seed=rnd.randrange(1 << 40), engine=engines[d % len(engines)], optfsync=(d % 2 == 0), ops_max=OPS_MAX, specs=specs))
     return jobs
 
 
@@ -538,10 +559,10 @@ def run_harness(ctx, sub, jobs, workers, follower=False):
     cmd = "%s %s-replay %s -out %s -workers %d -port %d" % (os.path.join(vlib.BIN, "crashnode"), "-follower " if follower else "", rp, d, workers, port_base())
     rc, out, dt = sh(cmd, cwd=d, timeout=3000)
     if rc != 0:
-        return None, out
+        return None, "the harness (crashnode) did not finish (rc=%s after %.0f s): %s" % (rc, dt, out[-2500:])
     rc2, out2, dt2 = sh("%s < cases.tsv > model.out" % vlib.modelrun_path("Recover"), cwd=d, timeout=1200)
     if rc2 != 0:
-        return None, out2
+        return None, "the acceptor (extracted path model) did not finish (rc=%s after %.0f s): %s" % (rc2, dt2, out2[-2500:])
     return d, ""
 
 
@@ -655,13 +676,14 @@ def run(ctx):
         batches.append(("corpus", corpus))
         if quick:
             batches.append(("follower", gen_follower(ctx.seed, 6, ["pebble", "rocksdb", "mem"], cover_once=True)))
-            batches.append(("sparse", gen_sparse_snapshots(ctx.seed, 3, ["pebble", "rocksdb", "mem"])))
+            batches.append(("sparse", gen_sparse_snapshots(ctx.seed, 3, ["pebble", "rocksdb", "mem"])
+                            + gen_consecutive(ctx.seed, 3, ["rocksdb", "pebble", "mem"])))
             batches.append(("fresh", gen_jobs(ctx.seed, 12, 4, ["pebble", "rocksdb", "mem"], known, cover_once=True)))
         else:
             batches.append(("fresh", gen_jobs(ctx.seed, 320, 9, engines, known)))
             batches.append(("systematic", gen_systematic(ctx.seed, engines, known, [1, 2, 3, 4, 5, 8, 13, 21, 34, 47, 55, 69])))
             batches.append(("follower", gen_follower(ctx.seed, 160, engines, lives=4)))
-            batches.append(("sparse", gen_sparse_snapshots(ctx.seed, 45, engines)))
+            batches.append(("sparse", gen_sparse_snapshots(ctx.seed, 45, engines) + gen_consecutive(ctx.seed, 27, engines)))
 
     all_fail, all_mism, stats_all, hist_all, samples = [], [], {}, {}, []
     not_followed = []
@@ -684,8 +706,19 @@ def run(ctx):
             continue
         d, err = run_harness(ctx, name, jobs, workers, follower=bool(jobs and jobs[0].get("follower")))
         if d is None:
-            log("HARNESS RUN FAILED:\n" + err[-3000:])
-            raise SystemExit(2)
+            # a harness or an acceptor that dies is never a bare exit: the lives recorded so far go to the oracle (a node
+            # that does not come back is a failing input), and the batch counts as a broken correspondence
+            log("HARNESS RUN FAILED (%s): %s" % (name, err[-1500:]))
+            dd = os.path.join(ctx.run_dir, name)
+            if os.path.exists(os.path.join(dd, "trace.jsonl")):
+                try:
+                    fails, stats, hist, lives, events, smp, dirs = evaluate(dd, jobs)
+                    all_fail += fails
+                    lives_total += lives
+                except Exception as e:      # a torn last line of the trace
+                    log("partial trace not evaluated: %r" % (e,))
+            all_mism.append(("harness:" + name, "(the batch did not finish)", err[-1500:], None))
+            continue
         fails, stats, hist, lives, events, smp, dirs = evaluate(d, jobs)
         mism, cnt = vlib.diff_outputs(os.path.join(d, "impl.out"), os.path.join(d, "model.out"))
         # the last life of a directory has no later start to predict: its "rec=?" is not compared
